@@ -8,7 +8,7 @@
    Spec/FCondGrammar.v (Spells, wf_expr, sem). *)
 From Coq Require Import NArith ZArith List Bool.
 From PS Require Import Base.Chars Base.Outcome Model.FCondParse Model.FCond Spec.FGlob Spec.FCondGrammar
-                       Model.Filter Spec.FilterSpec Proofs.FilterP.
+                       Model.Filter Spec.FilterSpec Proofs.FilterP Proofs.FilterStackP.
 Import ListNotations.
 
 (* A filter is applied to a rule iff the rule is a detection rule, every attribute of the filter's
@@ -78,6 +78,34 @@ Print Assumptions C11_rewrite_spells.
 Theorem C11_untouched : forall draws f r, should_apply f r = false -> apply_on_rule draws f r = Some (r, draws).
 Proof. exact untouched. Qed.
 Print Assumptions C11_untouched.
+
+(* STACKED FILTERS, whole collection (SigmaCollection.apply_filters: for every rule, fold apply_on_rule
+   over all filters; one shared stream of draws of equal length, as random.choices(..., k=10) gives).
+   If every rule is as in C11_meaning_partial (rule_ok) and every filter that targets it is as there
+   (filter_ok), then every condition of every rule of the collection loads and its value is, for EVERY
+   truth assignment to the detection objects, the value of the source condition AND the values of the
+   conditions of exactly the filters that target the rule (stacked): the patterns a filter leaves in
+   the condition never select the detections of a later filter, because the re-draw loop (repair of
+   D16) keeps the prefixes distinct. *)
+Theorem C11_collection_partial :
+  forall L fs rs draws rs' rest,
+    draws_ok L draws ->
+    Forall (fun r => rule_ok r /\ Forall (fun f => should_apply f r = true -> filter_ok f) fs) rs ->
+    apply_filters draws fs rs = Some (rs', rest) ->
+    Forall2 (fun r r' => stacked r fs r') rs rs'.
+Proof. exact collection_main. Qed.
+Print Assumptions C11_collection_partial.
+
+(* all other rules - those no filter targets, in particular every correlation rule - leave the
+   collection exactly as they entered it *)
+Theorem C11_collection_untouched :
+  forall fs draws r, Forall (fun f => should_apply f r = false) fs -> apply_all draws fs r = Some (r, draws).
+Proof. exact collection_untouched. Qed.
+Print Assumptions C11_collection_untouched.
+
+Theorem C11_correlation_never : forall r f, r_kind r = KCorrelation -> should_apply f r = false.
+Proof. exact correlation_never. Qed.
+Print Assumptions C11_correlation_never.
 
 (* outside the premises - each witness is replayed against the real code (known_findings.d/C11.json) *)
 (* D15: a rule pattern beginning with '_' ("not 1 of _*") captures the filter's detections *)
